@@ -346,6 +346,7 @@ func ExpectedGroups(t *Tree) map[string]string {
 type CmpOpt struct {
 	DirMtime    func(path string) bool // compare mtime of this directory?
 	DirXattrs   func(path string) bool
+	FileXattrs  func(path string) bool // nil = compare xattrs of every regular file
 	SkipMtime   bool
 	SkipXattrs  bool
 	SkipOwner   bool
@@ -405,6 +406,8 @@ func DiffSnap(got, want Snap, o CmpOpt) *Errs {
 			cmpX = cmpX && o.DirXattrs != nil && o.DirXattrs(p)
 		} else if g.Kind != KFile {
 			cmpX = false // the statement promises xattrs of regular files and directories
+		} else if o.FileXattrs != nil {
+			cmpX = cmpX && o.FileXattrs(p)
 		}
 		if cmpMtime {
 			gm, wm := g.Mtime, w.Mtime
